@@ -65,7 +65,7 @@ func ruleC01_1(c *Ctx, ra, rb string) {
 	gen := w.Field("allocation", "Manager", "allocatePacketConn")
 	for _, st := range stores {
 		ok := false
-		if st.Parent() == create {
+		if w.partOf(st.Parent(), create) {
 			if call, idx := callOf(st.Val); call != nil && idx == 0 && !call.Call.IsInvoke() && call.Call.StaticCallee() == nil {
 				if b, f, isLoad := fieldLoad(call.Call.Value); isLoad && f == gen {
 					_ = b
